@@ -115,6 +115,7 @@ structure Source where
   u2fsCase : Nat → List Byte → U2fResp → String
   regnewCase : List Byte → List Byte → String
   call2Case : String → String → String → String → String
+  rpcDelegates : Bool × Bool      -- does `Rpc::call` go through `call_ctap1` / `call_ctap2`?
   call1Case : String → String → String → String
   adatCase : Cfg → String → List Byte → Nat → Nat → Option (Option Acd) → Option Val → String
   tables : String → Option (List (String × Nat))
@@ -276,6 +277,7 @@ def genSource : Source :=
     reqTables := Gen.reqTables, respCase := genRespCase, adatCase := genAdatCase, u2fParse := runProgram Gen.u2fProgram Gen.controlByteTryFrom,
     u2fsCase := genU2fsCase, regnewCase := genRegnewCase,
     call2Case := genCall2 Gen.dispatch2 ((Gen.statusCodes.lookup Gen.largeBlobsDefaultError).getD 999) Gen.rpc2Delegates,
+    rpcDelegates := (Gen.rpc1Delegates, Gen.rpc2Delegates),
     call1Case := genCall1 Gen.dispatch1 Gen.rpc1Delegates Gen.versionDefault, opCase := genOpCase, vopCase := genVopCase,
     tables := fun n => if n = "status" then some Gen.statusCodes
                        else if n = "Permissions" then some Gen.flagsPermissions
@@ -288,6 +290,7 @@ def specSource : Source :=
     reqTables := specReqTables, respCase := specRespCase, adatCase := specAdatCase, u2fParse := fun a b c d => .ret (Spec.u2fParse a b c d),
     u2fsCase := specU2fsCase, regnewCase := specRegnewCase,
     call2Case := genCall2 (specArms Spec.dispatch2) Spec.statusInvalidCommand true,
+    rpcDelegates := (true, true),
     call1Case := genCall1 (specArms Spec.dispatch1) true "U2F_V2", opCase := specOpCase, vopCase := specVopCase,
     tables := fun n => if n = "status" then some Spec.statusCodes
                        else if n = "Permissions" then some Spec.permissions
@@ -363,8 +366,14 @@ def sweep (t : ReqTables) (pre : List Byte) (n : Nat) : String :=
   s!"sweep n={total} ok={a.ok} err1={a.e1} err18={a.e18} err20={a.e20} errother={a.eo} panic={a.pn}" ++
     (if a.first.isEmpty then "" else s!" first={a.first}") ++ s!" digest={hexd}"
 
+/-- `call2` lines may carry a sixth token (the value the mock's handler returns): the dispatcher hands
+    back whatever the handler returned, so the model's answer does not depend on it -/
+def dropCanned : List String → List String
+  | ["call2", entry, lb, req, fail, _] => ["call2", entry, lb, req, fail]
+  | l => l
+
 def handle (src : Source) (line : String) : String :=
-  match line.trimAscii.toString.splitOn " " with
+  match dropCanned (line.trimAscii.toString.splitOn " ") with
   | ["dec", cfg, ty, hex] =>
     (match parseCfg cfg with
      | none => "bad-case"
@@ -503,6 +512,11 @@ def handle (src : Source) (line : String) : String :=
     (match variant with
      | none => "bad-case"
      | some v => src.call2Case entry lb v fail)
+  | ["rpcov", which, _] =>
+    -- an authenticator overriding the provided dispatch method: `Rpc::call` reaches the override iff it delegates
+    if which = "1" then (if src.rpcDelegates.1 then "overridden" else "bypassed")
+    else if which = "2" then (if src.rpcDelegates.2 then "overridden" else "bypassed")
+    else "bad-case"
   | ["call1", entry, apdu, fail] =>
     (match (fromHex apdu).bind parseApdu with
      | none => "bad-case"
